@@ -331,7 +331,17 @@ func c04Run(c *fw.Ctx, i int) {
 				return c04Sentence(kw, r.Intn(4), sh, mi, r.Intn(4), day, y, r.Bool(), r)
 			}
 			a, b := mk(), mk()
-			text := c04Case(bw, variant, r) + " " + a.text + " " + c04Case(aw, variant, r) + " " + b.text
+			// 1-3 spaces at every word boundary of the range as well
+			gap := func() string {
+				switch r.Intn(6) {
+				case 0:
+					return "  "
+				case 1:
+					return "   "
+				}
+				return " "
+			}
+			text := c04Case(bw, variant, r) + gap() + a.text + gap() + c04Case(aw, variant, r) + gap() + b.text
 			c04Check(c, text, a, b, "range")
 			if c.WantSample("range") {
 				c.Sample("range", map[string]interface{}{"text": text, "start": fmt.Sprintf("%s d=%d m=%d y=%d", c04ConsName(a.cons), a.d, a.m, a.y), "end": fmt.Sprintf("%s d=%d m=%d y=%d", c04ConsName(b.cons), b.d, b.m, b.y)})
